@@ -99,20 +99,18 @@ const (
 )
 
 func (d *structDecoder) tryOptimize() {
-	fieldUniqueNameMap := map[string]int{}
-	fieldIdx := -1
-	for k, v := range d.fieldMap {
-		lower := strings.ToLower(k)
-		idx, exists := fieldUniqueNameMap[lower]
-		if exists {
-			v.fieldIdx = idx
-		} else {
-			fieldIdx++
-			v.fieldIdx = fieldIdx
+	// one number per field ( the field map holds a field under its name and under the lower-case
+	// alias of the name; two fields whose names differ only in case are two fields )
+	fieldIdxMap := map[*structFieldSet]int{}
+	for _, v := range d.fieldMap {
+		idx, exists := fieldIdxMap[v]
+		if !exists {
+			idx = len(fieldIdxMap)
+			fieldIdxMap[v] = idx
 		}
-		fieldUniqueNameMap[lower] = fieldIdx
+		v.fieldIdx = idx
 	}
-	d.fieldUniqueNameNum = len(fieldUniqueNameMap)
+	d.fieldUniqueNameNum = len(fieldIdxMap)
 
 	if d.isTriedOptimize {
 		return
